@@ -31,6 +31,8 @@ ReopenOK == FlushOnClose /\ (TombLog \/ ~Removed)
 Op ==
     \/ "ins" \in OpSet /\ S.nv < MaxIns /\ \E k \in Keys : Insert(k)
     \/ "ins_nt" \in OpSet /\ S.nv < MaxIns /\ \E k \in Keys : InsertNoTurn(k)
+    \/ "ins_h" \in OpSet /\ S.nv < MaxIns /\ \E k \in Keys : KeyLoc[k] = "ondisk" /\ InsertHold(k)
+    \/ "ins_h" \in OpSet /\ S.heldph # <<>> /\ DropHeld
     \/ "rem" \in OpSet /\ \E k \in Keys : Remove(k)
     \/ "get" \in OpSet /\ \E k \in Keys : Get(k)
     \/ "sload" \in OpSet /\ \E k \in Keys : SLoad(k)
